@@ -1,23 +1,47 @@
 """C16 - the driver's picture of the cluster follows what the cluster reports.
 
-Cluster.tla (model + property operator Viol), MC_Cluster (exhaustive model pass), Gen_Cluster
-(histories with the model's expected states: enumerated and -simulate), replay against a real
-Session over the scripted cluster (harness/cluster), Trace_Cluster (TLC evaluates the property
-on every recorded state and compares each recorded transition with the model's)."""
-import json, os, re, collections, concurrent.futures as cf
+spec/Cluster.tla      model of truth / property state / driver + the property operator Viol
+spec/MC_Cluster.tla   exhaustive model pass (3 ids x 3 addresses, bounded depth)
+spec/Gen_Cluster.tla  histories with the model's expected quiescent states: enumerated (all mixed
+                      histories of length 2, all refresh histories of length 3, first step canonical)
+                      and sampled (-simulate: invalid rows, repeated ids, filter, bursts)
+harness/cluster       executes the histories on a real Session over the scripted cluster and
+                      records the projected ring / pool / policy state after every step
+spec/Trace_Cluster.tla TLC evaluates the property on every recorded state (violation) and
+                      compares every recorded transition with the model's (drift)
+"""
+import json, os, re, random, collections, concurrent.futures as cf
 import vf
 
-DEV_WORKERS = int(os.environ.get("VERIF_TLC_WORKERS", "0")) or None
+WORKERS = int(os.environ.get("VERIF_TLC_WORKERS", "0")) or None   # None: all cores
+
+
+# ------------------------------------------------------------------ TLC helpers
+
+def _tla_set(xs):
+    return "{" + ", ".join('"%s"' % x for x in xs) + "}"
+
+
+def _write_cfg(ctx, name, consts, tail):
+    d = vf._scratch_spec_dir(ctx, "w")
+    lines = ["SPECIFICATION Spec", "CONSTANTS"] + ["  %s = %s" % kv for kv in consts.items()] + tail
+    open(os.path.join(d, name), "w").write("\n".join(lines) + "\n")
+    return name
+
+
+def _consts(nids=3, naddrs=3, filt=(), defect=True, maxlen=2, bad=False, dup=False, depth=2, sim=False, mixed=True,
+            burst=0, ordered=True):
+    return collections.OrderedDict(
+        Ids=_tla_set("i%d" % k for k in range(1, nids + 1)), Addrs=_tla_set("a%d" % k for k in range(1, naddrs + 1)),
+        Filt=_tla_set(filt), DefectByAddr="TRUE" if defect else "FALSE", MaxLen=maxlen,
+        WithBad="TRUE" if bad else "FALSE", WithDup="TRUE" if dup else "FALSE", GenDepth=depth,
+        Sim="TRUE" if sim else "FALSE", Mixed="TRUE" if mixed else "FALSE", Burst=burst,
+        Ordered="TRUE" if ordered else "FALSE")
 
 
 def _gen(ctx, cfgname, consts, simulate=None, depth=None, timeout=600, workers=1, seed=None):
-    """Run Gen_Cluster with a generated cfg; returns the printed histories."""
-    d = vf._scratch_spec_dir(ctx, "w")
-    lines = ["SPECIFICATION Spec", "CONSTANTS"]
-    for k, v in consts.items():
-        lines.append("  %s = %s" % (k, v))
-    lines += ["INVARIANT Emit", "CHECK_DEADLOCK FALSE"]
-    open(os.path.join(d, cfgname), "w").write("\n".join(lines) + "\n")
+    """Run Gen_Cluster; returns the printed histories (steps with the model's expected states)."""
+    _write_cfg(ctx, cfgname, consts, ["INVARIANT Emit", "CHECK_DEADLOCK FALSE"])
     extra = ["-seed", str(seed)] if seed is not None else None
     r = vf.run_tlc(ctx, "Gen_Cluster", cfgname, workers=workers, timeout=timeout, simulate=simulate, depth=depth,
                    deadlock=False, name="gen_" + cfgname.replace(".cfg", ""), extra=extra, heap="4g")
@@ -29,27 +53,27 @@ def _gen(ctx, cfgname, consts, simulate=None, depth=None, timeout=600, workers=1
     return hs, r
 
 
-def _tla_set(xs):
-    return "{" + ", ".join('"%s"' % x for x in xs) + "}"
-
-
-def _consts(nids=3, naddrs=3, filt=(), defect=True, maxlen=2, bad=False, dup=False, depth=2, sim=False, mixed=True):
-    return collections.OrderedDict(
-        Ids=_tla_set("i%d" % k for k in range(1, nids + 1)), Addrs=_tla_set("a%d" % k for k in range(1, naddrs + 1)),
-        Filt=_tla_set(filt), DefectByAddr="TRUE" if defect else "FALSE", MaxLen=maxlen,
-        WithBad="TRUE" if bad else "FALSE", WithDup="TRUE" if dup else "FALSE", GenDepth=depth,
-        Sim="TRUE" if sim else "FALSE", Mixed="TRUE" if mixed else "FALSE")
-
-
-def _scenarios(hists, first, mode="direct", nids=3, naddrs=3, filt=()):
+def _thin(hists, per_prefix, rnd):
+    """-simulate prints one history per candidate last step of a walk: keep a few per walk."""
+    groups = collections.OrderedDict()
+    for h in hists:
+        key = json.dumps([dict(s, exp=None) for s in h["steps"][:-1]], sort_keys=True)
+        groups.setdefault(key, []).append(h)
     out = []
-    for k, h in enumerate(hists):
-        out.append(dict(n=first + k, mode=mode, nids=nids, naddrs=naddrs, filt=list(filt), init=[], exp0=h["exp0"],
-                        steps=h["steps"]))
+    for g in groups.values():
+        rnd.shuffle(g)
+        out += g[:per_prefix]
     return out
 
 
-def _replay(ctx, binary, scs, name, par=16, timeout=900):
+def _scenarios(hists, first, mode="direct", nids=3, naddrs=3, filt=(), src=""):
+    return [dict(n=first + k, mode=mode, nids=nids, naddrs=naddrs, filt=list(filt), init=[], exp0=h["exp0"],
+                 steps=h["steps"], src=src) for k, h in enumerate(hists)]
+
+
+# ------------------------------------------------------------------ real code
+
+def _replay(ctx, binary, scs, name, par=32, timeout=900):
     sp = os.path.join(ctx.tmp, "sc_%s.ndjson" % name)
     tp = os.path.join(ctx.tmp, "tr_%s.ndjson" % name)
     vf.write_ndjson(sp, scs)
@@ -59,5 +83,249 @@ def _replay(ctx, binary, scs, name, par=16, timeout=900):
     return rc, out, (json.loads(m.group(1)) if m else None), tp
 
 
+def _sig(sc):
+    def rows(rs):
+        return ",".join("%s@%s%s" % (r["id"], r["addr"], "" if r["inv"] == "ok" else ":" + r["inv"]) for r in rs)
+    return " ; ".join("%s[%s]%s%s%s" % (s["op"], rows(s["rows"]), "" if s["fail"] == "none" else " fail=" + s["fail"],
+                                         " " + ",".join(e["kind"] + ":" + e["addr"] for e in s["evs"][:6]) +
+                                         ("..(%d)" % len(s["evs"]) if len(s["evs"]) > 6 else "") if s["evs"] else "",
+                                         " " + s["addr"] if s["addr"] else "") for s in sc["steps"])
+
+
+def _state(r):
+    return "hosts=%s byaddr=%s pool=%s policy=%s served=%s refreshes=%d%s" % (
+        ["%s@%s%s" % (h["id"], h["addr"], "" if h["up"] else "(down)") for h in r["hosts"]],
+        ["%s>%s" % (h["addr"], h["id"]) for h in r["byaddr"]], [h["id"] for h in r["pool"]],
+        ["%s@%s" % (h["id"], h["addr"]) for h in r["pol"]], r["served"], r["refreshes"],
+        " err=" + r["err"] if r["err"] else "")
+
+
+def _probe(ctx, binary):
+    """Which variant of the driver model predicts this tree: does removing a host delete an
+    address entry that names another host?  (Only selects the prediction used for waiting and
+    for the drift comparison; the property operator does not depend on it.)"""
+    row = lambda i, a: dict(id=i, addr=a, inv="ok")
+    sc = dict(n=0, mode="direct", nids=3, naddrs=3, filt=[], init=[row("i1", "a1")],
+              steps=[dict(op="refresh", rows=[row("i2", "a1")], fail="none", evs=[], addr="")], src="probe")
+    rc, out, summ, tp = _replay(ctx, binary, [sc], "probe", par=1, timeout=120)
+    if not summ or summ["Errors"]:
+        if "panic:" in out:
+            return None, out
+        raise vf.Inconclusive("probe scenario did not run:\n" + out[-2000:])
+    last = [r for r in vf.read_ndjson(tp) if r["op"] == "refresh"][-1]
+    has = any(h["id"] == "i2" and h["addr"] == "a1" for h in last["hosts"])
+    lost = has and not any(b["addr"] == "a1" for b in last["byaddr"])
+    return lost, out
+
+
+def _validate(ctx, recs, defect, shards):
+    """TLC evaluates the property on every recorded state; returns (viol, drift, skipped, lines)."""
+    by = collections.OrderedDict()
+    for r in recs:
+        by.setdefault(r["sc"], []).append(r)
+    for v in by.values():
+        v.sort(key=lambda r: r["k"])
+    keys = list(by.keys())
+    parts = [keys[i::shards] for i in range(shards)]
+    cfg = "Trace_Cluster.cfg" if defect else "Trace_Cluster_fixed.cfg"
+
+    def one(i):
+        if not parts[i]:
+            return None
+        p = os.path.join(ctx.tmp, "val_%d.ndjson" % i)
+        rs = [r for k in parts[i] for r in by[k]]
+        vf.write_ndjson(p, rs)
+        r = vf.run_tlc(ctx, "Trace_Cluster", cfg, workers=1, heap="2g", timeout=1200, env={"VF_TRACE": p},
+                       deadlock=False, name="val_%d" % i, quiet=True)
+        return r, len(rs)
+
+    viol, drift, skipped, lines = [], [], 0, 0
+    with cf.ThreadPoolExecutor(shards) as ex:
+        for res in ex.map(one, range(shards)):
+            if res is None:
+                continue
+            r, n = res
+            done = re.search(r'<<"MONDONE", (\d+)>>', r.out)
+            if not r.ok or not done or int(done.group(1)) != n:
+                raise vf.Inconclusive("Trace_Cluster did not process its %d lines: %s\n%s" % (n, r.error or r.violated, r.out[-2000:]))
+            viol += vf.tlc_printed(r.out, "MONVIOL")
+            drift += vf.tlc_printed(r.out, "MONDRIFT")
+            skipped += len(vf.tlc_printed(r.out, "MONSKIP"))
+            lines += n
+    return viol, drift, skipped, lines, by
+
+
+# ------------------------------------------------------------------ the check
+
 def run(ctx):
-    raise vf.Inconclusive("under construction")
+    quick = ctx.tier == "quick"
+    ctx.level = "model_checking"
+    rnd = random.Random(ctx.seed)
+    binary = vf.build_gotest(ctx, ".", ["common", "cluster"])
+
+    # ---- replay of a stored violation
+    if getattr(ctx, "replay", None):
+        rp = json.load(open(ctx.replay))
+        scs = []
+        for v in rp.get("violations", []):
+            sc = (v.get("detail") or {}).get("scenario")
+            if sc and sc not in scs:
+                scs.append(sc)
+        if not scs:
+            raise vf.Inconclusive("replay file holds no scenario")
+        defect, _ = _probe(ctx, binary)
+        rc, out, summ, tp = _replay(ctx, binary, scs, "replay", par=16)
+        if not summ:
+            raise vf.Inconclusive("replay did not run:\n" + out[-2000:])
+        viol, drift, skipped, lines, by = _validate(ctx, vf.read_ndjson(tp), bool(defect), 1)
+        _report(ctx, viol, drift, {s["n"]: s for s in scs}, by)
+        ctx.cov = dict(states=0, transitions=0, traces_validated_against_impl=len(scs), samples=[_sig(scs[0])])
+        return
+
+    # ---- 0. which driver-model variant predicts this tree
+    defect, pout = _probe(ctx, binary)
+    if defect is None:
+        ctx.violation("panic", "the driver panicked in the probe history (replace a host id at the same address)", pout[-3000:])
+        ctx.cov = dict(states=0, transitions=0, traces_validated_against_impl=0, samples=[])
+        return
+    ctx.log("probe: removing a host %s the address entry of its successor (driver model DefectByAddr=%s)" % (
+        "DELETES" if defect else "keeps", defect))
+
+    # ---- 1. model pass: the repaired design satisfies the property; the modelled defect does not
+    runs = []
+    mc = vf.tlc_must_pass(ctx, "MC_Cluster", "MC_Cluster_quick.cfg", timeout=900, workers=WORKERS, heap="6g")
+    runs.append(dict(cfg="MC_Cluster_quick", distinct=mc.distinct, generated=mc.generated, depth=mc.depth))
+    mf = vf.tlc_must_pass(ctx, "MC_Cluster", "MC_Cluster_filter.cfg", timeout=900, workers=WORKERS, heap="6g")
+    runs.append(dict(cfg="MC_Cluster_filter", distinct=mf.distinct, generated=mf.generated, depth=mf.depth))
+    md = vf.run_tlc(ctx, "MC_Cluster", "MC_Cluster_defect.cfg", timeout=600, workers=WORKERS, heap="4g")
+    if md.violated != "PropertyHolds":
+        raise vf.Inconclusive("the model with DefectByAddr=TRUE does not exhibit the by-address loss: %s %s" % (md.violated, md.error))
+    runs.append(dict(cfg="MC_Cluster_defect", distinct=md.distinct, generated=md.generated, depth=md.depth,
+                     expected_violation="PropertyHolds"))
+    if not quick:
+        mt = vf.tlc_must_pass(ctx, "MC_Cluster", "MC_Cluster_thorough.cfg", timeout=1500, workers=WORKERS, heap="14g")
+        runs.append(dict(cfg="MC_Cluster_thorough", distinct=mt.distinct, generated=mt.generated, depth=mt.depth))
+    states = sum(r["distinct"] for r in runs)
+    trans = sum(r["generated"] for r in runs)
+
+    # ---- 2. histories from TLC (the generator runs are independent: run them side by side)
+    scs = []
+    gen_stats = {}
+    ntr = 60 if quick else 500
+    dep = 6 if quick else 8
+    jobs = [
+        ("all-mixed-2", dict(), lambda: _gen(ctx, "gen_all2.cfg", _consts(defect=defect, depth=2, mixed=True), workers=2)[0]),
+        ("all-refresh-3", dict(), lambda: _gen(ctx, "gen_ref3.cfg", _consts(defect=defect, depth=3, mixed=False), workers=2)[0]),
+    ]
+    if not quick:
+        jobs.append(("all-refresh-2-len3-dup", dict(),
+                     lambda: _gen(ctx, "gen_ref3m.cfg", _consts(defect=defect, depth=2, mixed=False, maxlen=3, dup=True), workers=2)[0]))
+    for filt in ((), ("a3",), ("a1", "a2")):
+        jobs.append(("sim-filter%d" % len(filt), dict(filt=filt), (lambda filt=filt: _thin(_gen(
+            ctx, "gen_sim%d.cfg" % len(filt), _consts(defect=defect, depth=dep, sim=True, bad=True, dup=True, maxlen=3, filt=filt),
+            simulate="num=%d" % (ntr if len(filt) < 2 else ntr // 3), depth=dep + 1, seed=ctx.seed * 7 + len(filt), timeout=900)[0], 2, rnd))))
+    if not quick:
+        jobs.append(("sim-4x4", dict(nids=4, naddrs=4), lambda: _thin(_gen(
+            ctx, "gen_sim44.cfg", _consts(nids=4, naddrs=4, defect=defect, depth=7, sim=True, bad=True, dup=True, maxlen=3),
+            simulate="num=300", depth=8, seed=ctx.seed * 7 + 5, timeout=1200)[0], 2, rnd)))
+    with cf.ThreadPoolExecutor(4) as ex:
+        results = list(ex.map(lambda j: j[2](), jobs))
+    for (src, kw, _), hs in zip(jobs, results):
+        if quick and src == "all-refresh-3":
+            rnd.shuffle(hs)
+            hs, src = hs[:1500], "refresh-3-sample"
+        if src == "all-mixed-2":
+            h2 = hs
+        scs.extend(_scenarios(hs, len(scs), src=src, **kw))
+        gen_stats[src] = len(hs)
+    direct = list(scs)
+    # end to end: EVENT frames on the control connection, real debouncers, heartbeat reconnection
+    nw = 24 if quick else 160
+    hs, _ = _gen(ctx, "gen_wire.cfg", _consts(defect=defect, depth=3 if quick else 4, sim=True, bad=False, dup=False, maxlen=3, burst=40, ordered=False),
+                 simulate="num=%d" % nw, depth=5, seed=ctx.seed * 7 + 3, timeout=600)
+    wire = _scenarios(_thin(hs, 1, rnd)[:nw], len(scs), mode="wire", src="wire")
+    scs += wire
+    gen_stats["wire"] = len(wire)
+    ctx.log("histories: %s" % gen_stats)
+    byn = {s["n"]: s for s in scs}
+
+    # ---- 3. the real Session
+    recs = []
+    total = dict(Scenarios=0, Steps=0, Errors=0, Timeouts=0)
+    for name, part, par in (("direct", direct, 48), ("wire", wire, 32)):
+        rc, out, summ, tp = _replay(ctx, binary, part, name, par=par, timeout=1500 if quick else 3000)
+        if not summ:
+            if "panic:" in out or "fatal error:" in out:
+                m = re.search(r"(panic:|fatal error:)[^\n]*", out)
+                top = re.findall(r"^(?:github\.com/gocql/gocql|gocql)\.([^\n(]*)\(", out, re.M)
+                top = [t for t in top if "vfC16" not in t and not t.startswith("vf")]
+                ctx.violation("panic", "the process died while executing %s histories: %s (in %s)" % (
+                    name, m.group(0) if m else "?", top[0] if top else "?"), out[-6000:])
+                continue
+            raise vf.Inconclusive("replay driver (%s) gave no summary (rc=%s):\n%s" % (name, rc, out[-3000:]))
+        if summ["Errors"]:
+            if summ["Errors"] * 2 > summ["Scenarios"]:
+                raise vf.Inconclusive("sessions could not be created for %d of %d scenarios: %s" % (
+                    summ["Errors"], summ["Scenarios"], summ["FirstErr"]))
+            ctx.notes.append("%d scenario(s) could not start: %s" % (summ["Errors"], summ["FirstErr"]))
+        ctx.log("replay %s: %s" % (name, summ))
+        for k in total:
+            total[k] += summ[k]
+        recs += vf.read_ndjson(tp)
+    if not recs:
+        if ctx.violations:
+            ctx.cov = dict(states=states, transitions=trans, traces_validated_against_impl=0, samples=[])
+            return
+        raise vf.Inconclusive("no execution was recorded")
+
+    # ---- 4. TLC on the recorded executions
+    viol, drift, skipped, lines, by = _validate(ctx, recs, defect, 8 if quick else 12)
+    ctx.log("TLC evaluated %d recorded states of %d executions: %d violating, %d drifting, %d not judged (after a violation)" % (
+        lines, len(by), len(viol), len(drift), skipped))
+    kinds = _report(ctx, viol, drift, byn, by)
+
+    sample = scs[len(h2) // 2]
+    ctx.cov = dict(
+        states=states, transitions=trans, traces_validated_against_impl=len(by), exhaustive=True,
+        model_configs=runs, histories=gen_stats, steps_executed=total["Steps"], recorded_states=lines,
+        states_not_judged_after_violation=skipped, waits_expired=total["Timeouts"],
+        driver_model_variant="DefectByAddr=%s (chosen by the probe history)" % defect,
+        violation_classes={k: v for k, v in kinds.items()},
+        samples=[dict(kind="history", steps=_sig(sample),
+                      recorded=[_state(r) for r in by.get(sample["n"], [])][:4])],
+    )
+    ctx.assumptions += [
+        "steps are compared at quiescence (pools filled or given up); interleavings inside one refresh are not enumerated",
+        "peer rows have distinct addresses (system.peers is keyed by the peer address); a host id may be reported twice",
+        "the control connection stays on / returns to the dedicated control node (the other nodes refuse system.local)",
+        "round-robin policy observed; direct-mode histories bypass the two 1 s debounce timers (the wire-mode ones do not)",
+        "bounded: 3 ids x 3 addresses (4 x 4 sampled in the thorough tier), depth as in model_configs",
+    ]
+
+
+def _report(ctx, viol, drift, byn, by):
+    kinds = collections.Counter()
+    per_kind = collections.Counter()
+    for v in sorted(viol, key=lambda x: (x["sc"], x["k"])):
+        sc = byn.get(v["sc"])
+        for kind in sorted(v["kinds"]):
+            kinds[kind] += 1
+            if per_kind[kind] >= 8:
+                continue
+            per_kind[kind] += 1
+            lines = by.get(v["sc"], [])
+            at = [r for r in lines if r["k"] == v["k"]]
+            ctx.violation(kind, "%s after history {%s} (step %d, %s mode): %s" % (
+                kind, _sig(sc) if sc else "?", v["k"], sc["mode"] if sc else "?", _state(at[0]) if at else ""),
+                dict(scenario=sc, recorded=[r for r in lines if r["k"] <= v["k"]]))
+    dk = collections.Counter()
+    for x in drift:
+        sc = byn.get(x["sc"])
+        dk[x["op"]] += 1
+        if sum(dk.values()) <= 5:
+            at = [r for r in by.get(x["sc"], []) if r["k"] == x["k"]]
+            ctx.add_drift("step %d (%s) of history {%s}: the model expects %s, the session shows %s" % (
+                x["k"], x["op"], _sig(sc) if sc else "?", json.dumps(x["expected"], sort_keys=True), _state(at[0]) if at else "?"))
+    if sum(dk.values()) > 5:
+        ctx.add_drift("... %d drifting steps in total: %s" % (sum(dk.values()), dict(dk)))
+    return kinds
